@@ -2,6 +2,12 @@
 // router at the same moment. Frames with different switch blocks are handed to the REAL switch handler of one router
 // by many goroutines at once; every frame that leaves the router is a "rotate" event for SwitchLabel_Trace (the block
 // it arrived with, the label of the link it came in on, the label it left by, the block it carries now).
+//
+// A third of the frames is not fresh when the handler gets it: the router has attached an appendix (in place, or one
+// that moves the frame to a bigger pooled buffer), set header fields, cloned the frame or parsed it again
+// (frameops.go) - the handlers running at the same moment draw their buffers from the same pool. The event then also
+// says how many bytes outside the frame's block changed ("outside"), and a frame the handler KEPT (escalated to the
+// router) although the next label of its block is not 0 is an event with label 0.
 package main
 
 import (
@@ -28,7 +34,13 @@ func switchWorkers(c *vf.Ctx, rng *rand.Rand) (events []any) {
 		before []int
 		recv   int
 		out    int
+		cr     *spCarrier
+		pre    []byte
+		did    string
 	}
+	orng := rand.New(rand.NewSource(c.Seed*104729 + 5)) // frame operations: a PRNG of their own
+	opStat := map[string]int{}
+	kept := 0
 	rounds := c.Pick(40, 600)
 	per := 48
 	for round := 0; round < rounds; round++ {
@@ -62,12 +74,39 @@ func switchWorkers(c *vf.Ctx, rng *rand.Rand) (events []any) {
 				continue
 			}
 			tag := fmt.Sprintf("c12-switch-workers-%d-%d", round, k)
-			f, err := inN.Builder.NewFrameV1(inN.ID.IP, ms.Node(out).ID.IP, frame.RouterPing, sp.ForwardBlock, []byte(tag), nil)
+			nf, err := inN.Builder.NewFrameV1(inN.ID.IP, ms.Node(out).ID.IP, frame.RouterPing, sp.ForwardBlock, []byte(tag), nil)
 			if err != nil {
 				continue
 			}
+			var f frame.Frame = nf
 			f.SetRecvLink(R.LinkTo(inN))
-			plan[tag] = sent{toInts(sp.ForwardBlock), int(R.LinkTo(inN).SwitchLabel()), int(R.LinkTo(outN).SwitchLabel())}
+			p := sent{before: toInts(sp.ForwardBlock), recv: int(R.LinkTo(inN).SwitchLabel()), out: int(R.LinkTo(outN).SwitchLabel())}
+			if orng.Intn(3) == 0 {
+				op := spOp{X: orng.Intn(1 << 20), Old: []string{"pool", "pattern", "frame"}[orng.Intn(3)]}
+				switch orng.Intn(8) {
+				case 0, 1:
+					op.Kind, op.Rel = "appendix", "small"
+				case 2:
+					op.Kind, op.Rel = "appendix", "edge"
+				case 3, 4:
+					op.Kind, op.Rel = "appendix", "tier"
+				case 5:
+					op.Kind = "header"
+				case 6:
+					op.Kind = "clone"
+				default:
+					op.Kind = "reparse"
+				}
+				cr := newCarrier(inN.Builder, f, 3, opStat)
+				if err := cr.apply(op); err != nil {
+					cr.release()
+					c.Broken("switch workers: %v", err)
+					continue
+				}
+				f = cr.f
+				p.cr, p.pre, p.did = cr, spWire(f), cr.did()
+			}
+			plan[tag] = p
 			frames = append(frames, f)
 		}
 		var wg sync.WaitGroup
@@ -107,12 +146,40 @@ func switchWorkers(c *vf.Ctx, rng *rand.Rand) (events []any) {
 				continue
 			}
 			got++
-			events = append(events, map[string]any{"ev": "rotate", "before": p.before, "recv": p.recv, "label": p.out, "after": toInts(d[49 : 49+sw]), "want": p.out, "where": "real switch handler, frames of several paths at once"})
+			ev := map[string]any{"ev": "rotate", "before": p.before, "recv": p.recv, "label": p.out, "after": toInts(d[49 : 49+sw]), "want": p.out, "where": joinNonEmpty("; ", "real switch handler, frames of several paths at once", p.did)}
+			if p.cr != nil {
+				o1, w1 := p.cr.check()
+				o2, w2 := spFrameOutside(p.pre, d, true)
+				ev["outside"] = o1 + o2
+				if o1+o2 > 0 {
+					ev["outside_where"] = joinNonEmpty("; ", w1, w2)
+				}
+			}
+			events = append(events, ev)
+		}
+		// frames the handler kept for this router: it says their next label is 0
+		for _, h := range R.TakeEscalated() {
+			p, ok := plan[string(h.MessageData())]
+			if ok {
+				got++
+				kept++
+				events = append(events, map[string]any{"ev": "rotate", "before": p.before, "recv": p.recv, "label": 0, "after": toInts(spWireBlock(spWire(h))), "want": p.out, "where": joinNonEmpty("; ", "real switch handler, frames of several paths at once: the handler kept the frame for its own router", p.did)})
+			}
+			h.ReturnToPool()
+		}
+		for _, p := range plan {
+			if p.cr != nil {
+				p.cr.release()
+			}
 		}
 		if got < len(frames)/2 {
 			c.Broken("switch workers: only %d of %d frames left the router", got, len(frames))
 		}
 		c.Distinct(fmt.Sprintf("switch-workers|%d", round))
 	}
+	if opStat["appendix: frame moved to a bigger buffer"] == 0 || opStat["appendix: frame stays in its buffer"] == 0 {
+		c.Broken("switch workers: frame operations before the handler: %v", opStat)
+	}
+	c.Stage("T-switch-workers", map[string]any{"rounds": rounds, "events": len(events), "frame_operations": opStat, "kept_by_the_handler": kept})
 	return events
 }
